@@ -266,6 +266,16 @@ impl<'g> FnCx<'g> {
                 return Ok(Val::pure("none", Ty::opt(inner)));
             }
         }
+        // unit variants of translated enums
+        if p.path.segments.len() == 2 {
+            let en = p.path.segments[0].ident.to_string();
+            if let Some(vars) = self.g.enums.get(&en) {
+                let v = path_last(&p.path);
+                if vars.iter().any(|(n, tys)| *n == v && tys.is_empty()) {
+                    return Ok(Val::pure(format!("{}.{}", en, sanitize(&v)), Ty::Struct(en)));
+                }
+            }
+        }
         // unit variants of the crate's Error
         if p.path.segments.len() == 2 && (p.path.segments[0].ident == "Error") {
             if let Some(c) = err_variant(&path_last(&p.path)) {
@@ -718,6 +728,18 @@ impl<'g> FnCx<'g> {
                     atoms.push(paren_atom(&v.atom));
                 }
                 return Ok(Val { steps, atom: format!("({})", atoms.join(" ++ ")), prop: None, ty: Ty::Str });
+            }
+            ("__rs2lean_vec_repeat", 2) => {
+                let v = self.expr(args[0], None)?;
+                let n = self.expr(args[1], Some(&Ty::usize()))?;
+                self.u.unify(&n.ty, &Ty::usize())?;
+                let mut steps = v.steps.clone();
+                steps.extend(n.steps.clone());
+                let ety = match expect.map(|t| self.u.resolve(t)) {
+                    Some(Ty::List(t)) => self.u.unify(&t, &v.ty)?,
+                    _ => v.ty.clone(),
+                };
+                return Ok(Val { steps, atom: format!("(List.replicate {} {})", paren_atom(&n.atom), paren_atom(&v.atom)), prop: None, ty: Ty::list(ety) });
             }
             ("__rs2lean_vec", _) => {
                 let el = match expect.map(|t| self.u.resolve(t)) {
@@ -1260,7 +1282,7 @@ impl<'g> FnCx<'g> {
     }
 
     pub fn is_mutating_method(&self, m: &syn::ExprMethodCall) -> bool {
-        matches!(m.method.to_string().as_str(), "push" | "push_str" | "clear" | "truncate" | "extend_from_slice" | "resize" | "store_le" | "pop" | "sort_by_key" | "sort_unstable_by_key" | "set" | "next")
+        matches!(m.method.to_string().as_str(), "push" | "push_str" | "clear" | "truncate" | "extend_from_slice" | "resize" | "store_le" | "pop" | "sort_by_key" | "sort_unstable_by_key" | "set" | "next" | "copy_from_slice")
     }
 
     /// `v.push(x)` and friends as a statement: rebind the receiver
@@ -1291,6 +1313,34 @@ impl<'g> FnCx<'g> {
             steps.extend(hi.steps.clone());
             steps.extend(v.steps.clone());
             steps.push(Step::BindOk(var.lean.clone(), format!("rsStoreLe {} {} {} {}", var.lean, paren_atom(&lo.atom), paren_atom(&hi.atom), paren_atom(&v.atom))));
+            return Ok(steps);
+        }
+        if m.method == "copy_from_slice" && m.args.len() == 1 {
+            // `place[a..b].copy_from_slice(src)`: panics unless the lengths agree (and the range is in bounds)
+            let ix = match strip_paren(&m.receiver) {
+                syn::Expr::Index(ix) => ix,
+                _ => return unsupported("copy_from_slice on something other than a sub-range", m.span()),
+            };
+            let r = match strip_paren(&ix.index) {
+                syn::Expr::Range(r) if matches!(r.limits, syn::RangeLimits::HalfOpen(_)) && r.end.is_some() => r,
+                _ => return unsupported("copy_from_slice range form", m.span()),
+            };
+            let (cur, pty, setter) = self.place(&ix.expr)?;
+            if !matches!(self.u.resolve(&pty), Ty::List(_)) {
+                return unsupported("copy_from_slice into a non-list", m.span());
+            }
+            let lo = match &r.start {
+                Some(e) => self.expr(e, Some(&Ty::usize()))?,
+                None => Val::pure("0", Ty::usize()),
+            };
+            let hi = self.expr(r.end.as_ref().unwrap(), Some(&Ty::usize()))?;
+            let src = self.expr(&m.args[0], Some(&pty))?;
+            let mut steps = lo.steps.clone();
+            steps.extend(hi.steps.clone());
+            steps.extend(src.steps.clone());
+            let tmp = self.fresh_tmp();
+            steps.push(Step::BindOk(tmp.clone(), format!("rsCopyInto {} {} {} {}", paren_atom(&cur), paren_atom(&lo.atom), paren_atom(&hi.atom), paren_atom(&src.atom))));
+            steps.push(setter(&tmp));
             return Ok(steps);
         }
         if m.method == "set" && m.args.len() == 2 {
@@ -1413,6 +1463,24 @@ impl<'g> FnCx<'g> {
                 }
             }
             return self.iter_expr(&m.receiver);
+        }
+        if name == "read" && m.args.len() == 1 {
+            // `reader.read(buf)` on an `R: Read` place: delivers (part of) the next chunk into the front of `buf`
+            if let Ok((rcur, rty, rset)) = self.place(&m.receiver) {
+                if self.u.resolve(&rty) == Ty::Reader {
+                    let (bcur, bty, bset) = self.place(&m.args[0])?;
+                    if self.u.resolve(&bty) != Ty::bytes() {
+                        return unsupported("read into something other than a byte buffer", m.span());
+                    }
+                    let tmp = self.fresh_tmp();
+                    let steps = vec![
+                        Step::Let(tmp.clone(), format!("rsReaderRead {} {}", paren_atom(&rcur), paren_atom(&bcur))),
+                        rset(&format!("{}.2.2", tmp)),
+                        bset(&format!("{}.2.1", tmp)),
+                    ];
+                    return Ok(Val { steps, atom: format!("(Except.ok {}.1)", tmp), prop: None, ty: Ty::res(Ty::usize()) });
+                }
+            }
         }
         if name == "next" && m.args.is_empty() {
             // `it.next()` as a value: the head of the remaining items; the variable keeps the tail
@@ -1824,6 +1892,9 @@ impl<'g> FnCx<'g> {
                 Ok(self.declare(&n, ty.clone()))
             }
             syn::Pat::Path(pp) if path_last(&pp.path) == "None" => Ok("none".into()),
+            syn::Pat::Path(pp) if pp.path.segments.len() == 2 && self.g.enums.contains_key(&pp.path.segments[0].ident.to_string()) => {
+                Ok(format!(".{}", sanitize(&path_last(&pp.path))))
+            }
             syn::Pat::TupleStruct(ts) => {
                 let name = path_last(&ts.path);
                 let sub = ts.elems.first().ok_or("unsupported: empty tuple-struct pattern")?;
